@@ -207,6 +207,7 @@ FN('try_write_prelude_part', props=['C02', 'C01', 'C16'], ret='r',
        ('C02.maximal', '(final(state).phase is SendLine || final(state).phase is SendHeaders) && !r ==> final(w).out().len() + next_line(request, final(state).phase).len() > final(w).cap()'),
        ('aux.try_write_prelude_part.again', 'r ==> old(state).phase is SendLine && final(state).phase == Phase::SendHeaders(0) && final(w).out().len() > old(w).out().len()'),
        ('aux.try_write_prelude_part.stuck', '!r && final(w).out().len() == old(w).out().len() ==> final(state).phase == old(state).phase'),
+       ('aux.try_write_prelude_part.sending', '(old(state).phase is SendLine || old(state).phase is SendHeaders || old(state).phase is SendBody) ==> (final(state).phase is SendLine || final(state).phase is SendHeaders || final(state).phase is SendBody)'),
        ('C02.progress_iff_next_line_fits', '(old(state).phase is SendLine || old(state).phase is SendHeaders) ==> (final(w).out().len() > old(w).out().len() <==> old(w).out().len() + next_line(request, old(state).phase).len() <= old(w).cap())'),
        ('C02.complete_head_emits_nothing', '!(old(state).phase is SendLine || old(state).phase is SendHeaders) ==> !r && final(w).out() == old(w).out() && final(state).phase == old(state).phase'),
    ],
@@ -253,6 +254,7 @@ FN('try_write_prelude', props=['C02', 'C01', 'C16', 'C17'], ret='r',
        ('aux.try_write_prelude.frame', '''old(w).same_buffer(final(w)) && old(w).out().is_prefix_of(final(w).out()) && final(state).writer == old(state).writer && final(state).reader == old(state).reader
             && final(state).skip_method_body_check == old(state).skip_method_body_check && final(state).stop_on_chunk_boundary == old(state).stop_on_chunk_boundary'''),
        ('C02.whole_lines', 'head_step(request, old(state).phase, final(state).phase, final(w).out().subrange(old(w).out().len() as int, final(w).out().len() as int))'),
+       ('aux.try_write_prelude.sending', 'final(state).phase is SendLine || final(state).phase is SendHeaders || final(state).phase is SendBody'),
        ('C02.maximal', '(final(state).phase is SendLine || final(state).phase is SendHeaders) ==> final(w).out().len() + next_line(request, final(state).phase).len() > final(w).cap()'),
        ('C02.overflow_iff_nothing_fits', '''({
             let prelude0 = old(state).phase is SendLine || old(state).phase is SendHeaders;
@@ -266,7 +268,7 @@ FN('try_write_prelude', props=['C02', 'C01', 'C16', 'C17'], ret='r',
               'invariant': [
                   ('aux.try_write_prelude.loop.frame', '''old(w).same_buffer(w) && w.wf() && out0 == old(w).out() && out0.is_prefix_of(w.out()) && at_start == out0.len() && p0 == old(state).phase
                         && state.writer == old(state).writer && state.reader == old(state).reader && state.skip_method_body_check == old(state).skip_method_body_check && state.stop_on_chunk_boundary == old(state).stop_on_chunk_boundary'''),
-                  ('aux.try_write_prelude.loop.sending', 'p0 is SendLine || p0 is SendHeaders || p0 is SendBody'),
+                  ('aux.try_write_prelude.loop.sending', '(p0 is SendLine || p0 is SendHeaders || p0 is SendBody) && (state.phase is SendLine || state.phase is SendHeaders || state.phase is SendBody)'),
                   ('aux.try_write_prelude.loop.step', 'head_step(request, p0, state.phase, w.out().subrange(out0.len() as int, w.out().len() as int))'),
                   ('aux.try_write_prelude.loop.rounds', 'rounds <= 1 && (rounds == 0 ==> state.phase == p0 && w.out() == out0) && (rounds == 1 ==> p0 is SendLine && state.phase == Phase::SendHeaders(0) && w.out().len() > out0.len() && out0.len() + next_line(request, p0).len() <= w.cap())'),
               ],
@@ -429,15 +431,16 @@ RAW('''
 /// C02 / C17: what a head-writing call returns, in terms of the request AFTER analysis.
 /// `emitted` = the first n bytes of the caller's output buffer.
 pub open spec fn post_write_head<S, B>(pre: &Call<S, B>, post: &Call<S, B>, emitted: Seq<u8>, r_ok: bool, err: Option<Error>) -> bool {
-    if r_ok {
+    if r_ok || err == Some(Error::OutputOverflow) {
         &&& post.analyzed && (pre.analyzed ==> post.request == pre.request)
-        &&& head_step(&post.request, pre.state.phase, post.state.phase, emitted)
         &&& post.state.reader == pre.state.reader && post.state.skip_method_body_check == pre.state.skip_method_body_check && post.state.stop_on_chunk_boundary == pre.state.stop_on_chunk_boundary
         &&& (pre.analyzed ==> post.state.writer == pre.state.writer)
+        &&& (post.state.phase is SendLine || post.state.phase is SendHeaders || post.state.phase is SendBody)
+        // Ok: the next whole lines were emitted.  OutputOverflow: nothing was emitted, the call can be repeated
+        &&& (if r_ok { head_step(&post.request, pre.state.phase, post.state.phase, emitted) } else { post.state.phase == pre.state.phase })
     } else {
-        // nothing was emitted and the call can be repeated: the phase is unchanged
-        &&& post.state.phase == pre.state.phase
-        &&& (err == Some(Error::OutputOverflow) || (!pre.analyzed && *post == *pre))
+        // rejected by the analysis: nothing happened at all
+        !pre.analyzed && *post == *pre
     }
 }
 ''')
@@ -461,7 +464,9 @@ FN('write', props=['C02', 'C17', 'C01', 'C16'], ret='r',
         }'''),
        ('C17.rejected_before_any_byte', 'r is Err && !(r->Err_0 == Error::OutputOverflow) ==> *final(self) == *old(self) && final(output)@ == old(output)@'),
        ('C02.maximal', 'r is Ok && (final(self).state.phase is SendLine || final(self).state.phase is SendHeaders) ==> r->Ok_0 + next_line(&final(self).request, final(self).state.phase).len() > old(output).len()'),
-       ('C02.complete_head_emits_nothing', 'old(self).analyzed && old(self).state.phase is SendBody ==> r == Ok::<usize, Error>(0usize) && final(self).state.phase is SendBody'),
+       ('C02.complete_head_emits_nothing', 'old(self).analyzed && old(self).state.phase is SendBody ==> r == Ok::<usize, Error>(0usize) && *final(self) == *old(self)'),
+       ('C17.bodyless_call_stays_bodyless', '''old(self).state.writer.mode is None && old(self).state.writer.ended && !old(self).state.skip_method_body_check && !crate::ext::method_needs_body(old(self).request.request.spec_method())
+            ==> final(self).state.writer.mode is None && final(self).state.writer.ended && !final(self).state.skip_method_body_check && final(self).request.request == old(self).request.request'''),
    ],
    after=[('self.analyze_request()?;', 'proof { lemma_analysis_gives_a_header(old(self), self); }'),
           ('let output_used = w.len();', '''proof {
@@ -558,6 +563,8 @@ FN('write', props=['C02', 'C03', 'C04', 'C17', 'C18', 'C19', 'C01', 'C16'], ret=
             Err(e) => post_write_head(old(self), final(self), Seq::<u8>::empty(), false, Some(e)),
         }'''),
        ('C17.rejected_before_any_byte', '(!old(self).analyzed) && r is Err && !(r->Err_0 == Error::OutputOverflow) ==> *final(self) == *old(self) && final(output)@ == old(output)@'),
+       ('C02.maximal', '(!old(self).analyzed || old(self).state.phase is SendLine || old(self).state.phase is SendHeaders) && r is Ok && (final(self).state.phase is SendLine || final(self).state.phase is SendHeaders) ==> r->Ok_0.1 + next_line(&final(self).request, final(self).state.phase).len() > old(output).len()'),
+       ('aux.WithBody.write.request_kept', 'final(self).request.request == old(self).request.request && final(self).state.skip_method_body_check == old(self).state.skip_method_body_check'),
        ('C03/C04.body_bytes', '''old(self).analyzed && old(self).state.phase is SendBody ==>
             post_write_body(old(self), final(self), input@, old(output).len() as nat, |n: nat| final(output)@.subrange(0, n as int), r)'''),
    ],
